@@ -58,6 +58,10 @@ fn main() {
                 .open(j)
                 .ok();
         }
+        // a case that does not return: 30 s without progress (90 s when re-run in journal mode)
+        if c.layer != "miri" && c.layer != "valgrind" {
+            ctx::start_stall_detector(c.tick.clone(), if c.journal.is_some() { 90 } else { 30 });
+        }
         (spec.run)(&mut c);
         c.write_worker_output(out);
         return;
